@@ -147,6 +147,32 @@ Theorem C06_fires_plain : forall winenv d tunnel pre m txt tail ver,
 Proof. exact fires_plain. Qed.
 Print Assumptions C06_fires_plain.
 
+(* the same with PRIMITIVE premises: arbitrary bytes before the trigger (earlier markers
+   and complete triggers included), no marker behind it, no '%' in the read (so no
+   control-mode framing).  Relay output is explicit: "#R" behind the tail's [:.0-9] run. *)
+Theorem C06_fires_clean : forall winenv d tunnel pre m txt tail ver,
+  d_relay d && d_tmux d = false ->
+  trigger_text m txt -> greedy_end m tail ->
+  contains marker tail = false ->
+  ~ In 37 (pre ++ txt ++ tail) ->
+  finished (skipn (N.to_nat Consts.det_finished_offset) (txt ++ tail)) = false ->
+  parse_version (m_ver m) = Some ver ->
+  (dedup_eligible winenv (id_value (m_id m)) = true -> map_find (d_map d) (id_value (m_id m)) = None) ->
+  detect winenv d tunnel (pre ++ txt ++ tail) =
+    (if d_relay d then pre ++ txt ++ fst (span_relay tail) ++ Consts.det_relay_suffix ++ snd (span_relay tail)
+     else replace_all Consts.det_client_old Consts.det_client_new (pre ++ txt ++ tail),
+     Some {| t_mode := m_mode m; t_version := ver; t_id := id_value (m_id m);
+             t_win := win_server (id_value (m_id m)); t_port := port_value (m_port m); t_prefix := [] |},
+     set_map d (snd (is_repeated winenv (d_map d) (id_value (m_id m))))).
+Proof. exact fires_clean. Qed.
+Print Assumptions C06_fires_clean.
+
+(* "the trigger is the last marker" follows from "no marker in the tail" *)
+Theorem C06_last_marker : forall m txt tail, trigger_text m txt -> contains marker tail = false ->
+  last_index_of marker (txt ++ tail) = Some O.
+Proof. exact last_marker_clean. Qed.
+Print Assumptions C06_last_marker.
+
 (* what the relay's "#R" does to a complete trigger *)
 Theorem C06_relay_suffix : forall pre m txt tail, trigger_text m txt ->
   add_relay_suffix (pre ++ txt ++ tail) (length pre) =
@@ -237,6 +263,26 @@ Theorem C06_relay_forward_partial : forall winenv d tunnel buf pre m txt tail ve
     detect winenv2 (new_det false tmux2) tunnel (pre ++ txt ++ tail') = (out2, Some t, d2).
 Proof. exact relay_forward_partial. Qed.
 Print Assumptions C06_relay_forward_partial.
+
+(* proved part with PRIMITIVE premises (plain relay mode): arbitrary prefix, no marker in
+   the tail, no '%' in the read, and no finished-transfer word from offset 40 both before
+   and after the "#R" insertion - the one premise the refutation shows to be necessary *)
+Theorem C06_relay_forward_clean : forall winenv d tunnel pre m txt tail ver winenv2 tmux2,
+  let tail' := fst (span_relay tail) ++ Consts.det_relay_suffix ++ snd (span_relay tail) in
+  d_relay d = true -> d_tmux d = false ->
+  trigger_text m txt -> greedy_end m tail ->
+  contains marker tail = false ->
+  ~ In 37 (pre ++ txt ++ tail) ->
+  finished (skipn (N.to_nat Consts.det_finished_offset) (txt ++ tail)) = false ->
+  finished (skipn (N.to_nat Consts.det_finished_offset) (txt ++ tail')) = false ->
+  parse_version (m_ver m) = Some ver ->
+  (dedup_eligible winenv (id_value (m_id m)) = true -> map_find (d_map d) (id_value (m_id m)) = None) ->
+  exists t d' out2 d2,
+    detect winenv d tunnel (pre ++ txt ++ tail) = (pre ++ txt ++ tail', Some t, d') /\
+    contains Consts.det_relay_suffix (pre ++ txt ++ tail') = true /\
+    detect winenv2 (new_det false tmux2) tunnel (pre ++ txt ++ tail') = (out2, Some t, d2).
+Proof. exact relay_forward_clean. Qed.
+Print Assumptions C06_relay_forward_clean.
 
 (* ---- non-vacuity: the line trz prints meets the premises of C06_fires ---- *)
 Example C06_fires_nonvacuous :
